@@ -77,6 +77,25 @@ impl Cov {
     }
 }
 
+/// Case indices of one shard: shard, shard+n, shard+2n, ... below `max` (lazy: caps can be huge).
+pub struct CaseIter {
+    next: u64,
+    step: u64,
+    max: u64,
+}
+
+impl Iterator for CaseIter {
+    type Item = u64;
+    fn next(&mut self) -> Option<u64> {
+        if self.next >= self.max {
+            return None;
+        }
+        let k = self.next;
+        self.next = self.next.saturating_add(self.step);
+        Some(k)
+    }
+}
+
 pub struct Ctx {
     pub prop: String,
     pub tier: Tier,
@@ -100,20 +119,14 @@ impl Ctx {
     }
     /// Iterates over the case indices of this shard for a lane: k = shard, shard+n, ...
     /// up to `max_cases` (global) or until the time budget (fraction) is used.
-    pub fn cases(&self, lane: &str, max_cases: u64) -> Vec<u64> {
+    pub fn cases(&self, lane: &str, max_cases: u64) -> CaseIter {
         if let Some((l, k)) = &self.only_case {
             if l == lane {
-                return vec![*k];
+                return CaseIter { next: *k, step: u64::MAX, max: k.saturating_add(1) };
             }
-            return vec![];
+            return CaseIter { next: 1, step: 1, max: 0 };
         }
-        let mut v = vec![];
-        let mut k = self.shard;
-        while k < max_cases {
-            v.push(k);
-            k += self.nshards;
-        }
-        v
+        CaseIter { next: self.shard, step: self.nshards, max: max_cases }
     }
     pub fn begin(&mut self, lane: &str, case: u64) {
         self.lane = lane.to_string();
